@@ -239,7 +239,8 @@ MARKUP = {
     'equation_in_list': '- $a + b$\n- $\n  c\n$\n', 'figure': '#figure(\n  image("a.png"),\n  caption: [A *b*],\n) <fig>\n', 'set_show_top': '#set page(width: 10cm)\n#show: it => it\ntext\n',
     'for_markup': '#for x in range(3).map(i => i * 2).rev() [\n  - #x\n]\n', 'if_else_markup': '#if a [x] else [y] tail\n', 'let_content': '#let x = [\n  a\n]\n',
     'import_top': '#import "@preview/a:0.1.0": b, a as c, d\n#import "x.typ": *\n', 'import_sorted': '#import "a.typ": z, y as b, c.d, a\n', 'import_dup': '#import "a.typ": a, b as a\n',
-    'import_cmt': '#import "a.typ": b, /* c */ a\n', 'import_renamed_path': '#import "a.typ": x.y as b, a\n',
+    'import_cmt': '#import "a.typ": b, /* c */ a\n', 'import_dup_path': '#import "m.typ": b.x, a.x\n', 'import_dup_renamed': '#import "m.typ": z, y as z, a\n',
+    'import_samehead_path': '#import "m.typ": p.z, p.a\n', 'import_lc': '#import "a.typ": (\n  z, // c\n  a,\n)\n', 'import_multi': '#import "a.typ": c, b, a\n#import "b.typ": f.g as k, e, d.h\n', 'import_renamed_path': '#import "a.typ": x.y as b, a\n',
 }
 
 
